@@ -90,6 +90,12 @@ def case_st(draw, density=False):
         # the adaptive driver recomputes a per-coordinate delta before every step (bound part only)
         "adaptive": (not density) and draw(st.integers(0, 3)) == 0,
         "new_masses": [draw(fl(1, 200)) for _ in range(n)],
+        # forces so large that F*delta/2kT itself overflows a double (still finite forces): [i, j, value]
+        "huge": [[draw(st.integers(0, n - 1)), draw(st.integers(0, 2)), draw(st.sampled_from([1e300, -1e300, 1e307, -1e307, 1.5e308, -1.5e308, 1.7976931348623157e308]))]
+                 for _ in range(draw(st.sampled_from([0, 0, 1, 2])))],
+        # the calculator attached to the atoms is exchanged between steps (forces change sign, positions do not):
+        # every step must be biased along the force of the calculator attached when it is taken
+        "flip_every": draw(st.sampled_from([None, None, 1, 3])),
     }
     return case
 
@@ -104,6 +110,9 @@ def build(case):
     kT = kB * case["T"]
     gam = np.array(case["gamma"], dtype=float)
     forces = gam * 2.0 * kT / delta
+    for i, j, val in case.get("huge") or []:
+        forces[i, j] = val
+        gam[i, j] = np.sign(val) * 1e9  # far in the documented clipping region (|gamma| is clipped at 709.78)
     atoms.calc = FastCalc("constforce", {"forces": forces.tolist()})
 
     adaptive = bool(case.get("adaptive"))
@@ -162,6 +171,12 @@ def run_case(case):
     pattern = sorted({("0" if g == 0 else str(int(np.floor(np.log10(abs(g)))))) + ("-" if g < 0 else "+") for g in gam.ravel()})
     out = {"labels": labels, "nontrivial": nontrivial, "key": f"{case['n']}|{pattern}|{labels[1]}|{labels[2]}|{'d' if density else 'b'}", "violation": None, "weight": case["steps"]}
     zs = []
+    if case.get("flip_every"):
+        calc_pos = atoms.calc
+        calc_neg = FastCalc("constforce", {"forces": (-forces).tolist()})
+        out["labels"] = sorted(set(out["labels"]) | {"calculator-exchanged-between-steps"})
+    if case.get("huge"):
+        out["labels"] = sorted(set(out["labels"]) | {"force-overflows-gamma"})
     bound = np.abs(delta * scaling)
     desc = f"N={case['n']} T={case['T']:.4g} delta={'array' if case['deltas'] is not None else case['delta']} gamma={np.round(gam, 4).tolist()} power={case['power_kind']}"
     try:
@@ -175,6 +190,12 @@ def run_case(case):
                     scaling = np.power(m2.min() / m2, pexp)
                     bound = np.abs(delta * scaling)
                     out["labels"] = sorted(set(out["labels"]) | {"masses-updated-mid-run"})
+                sign = 1.0
+                if case.get("flip_every"):
+                    if (istep // case["flip_every"]) % 2 == 1:
+                        sign = -1.0
+                    if istep % case["flip_every"] == 0:
+                        atoms.calc = calc_neg if sign < 0 else calc_pos
                 before = atoms.positions.copy()
                 mc.rounds = 0
                 mc.step()
@@ -199,7 +220,7 @@ def run_case(case):
                     out["violation"] = {"kind": "displacement-not-zeta", "detail": f"{desc}: position change differs from zeta*delta*scaling by {np.abs(dx - exp).max():.3e} (configuration advanced more or less than once)"}
                     return out
                 if density:
-                    zs.append(z.copy())
+                    zs.append(sign * z)  # p(z; -gamma) = p(-z; gamma)
     except RuntimeError as exc:
         out["violation"] = {"kind": "no-termination", "detail": f"{desc}: {exc}"}
         return out
